@@ -9,7 +9,10 @@ ID = "C20"
 LEVEL = "exploration"
 RULE = (
     "case = block of series: length 3-2000 (moments 8-2000), lambda log-uniform in [1e-3,1e7] and 1600, shapes constant / "
-    "linear / alternating / random walk / white noise / positive log-normal / two-valued, scales 1e-6..1e6. Oracles: "
+    "linear / alternating / random walk / white noise / positive log-normal / two-valued, scales 1e-6..1e6, plus identically zero "
+    "series, series of ones and series with neighbouring values 1e-200 / 1e200 for the log filters, and for the moment summary "
+    "series scaled to 1e155..1e307, to 1e-307..1e-160 and integer-typed ones; every third series is filtered again with another "
+    "lambda and then with the first one. Oracles: the array passed in is unchanged; "
     "cycle+trend==series (4 ulps of scale); backward error ||(I+lam K'K) trend - y||inf <= 1e-11 (1+16 lam) ||y||inf with the "
     "monitor's own second-difference operator; wrappers equal their definitions computed from the monitor's own banded "
     "solve (1e-8 of scale); diff_log_demean has input length and |mean| <= 1e-12 scale; 18 finite moments. "
@@ -19,7 +22,7 @@ ASSUMPTIONS = [
     "the forward error of a solve at lambda up to 1e7 is conditioning, so the optimality residual is the verdict for general lambda",
     "series for the log filters are strictly positive",
 ]
-REQUIRED_COUNTERS = {"hp_cases": 200, "wrapper_cases": 100, "moment_cases": 200, "constant_series": 20}
+REQUIRED_COUNTERS = {"same_series_other_lambda": 100, "zero_series": 5, "log_filter_on_ones": 20, "log_filter_on_wild_ratios": 20, "moment_series_above_1e154": 40, "moment_series_integer_typed": 40, "hp_cases": 200, "wrapper_cases": 100, "moment_cases": 200, "constant_series": 20}
 SHARDS = {"quick": 8, "thorough": 16}
 
 SHAPES = ["constant", "linear", "alternating", "walk", "noise", "lognormal", "twovalued", "quadratic"]
@@ -114,6 +117,10 @@ def run_case(desc, ctx):
         elif form == "int":
             y = np.round(y / (float(np.max(np.abs(y))) or 1.0) * 1000).astype(np.int64)
         c[f"series_{form}"] = c.get(f"series_{form}", 0) + 1
+        if shape == "constant" and rng.random() < 0.3:
+            y = y * 0                       # identically zero (also what the log filters see for a series of ones)
+            c["zero_series"] = c.get("zero_series", 0) + 1
+        y_before = np.array(y, copy=True)
         sc = float(np.max(np.abs(y))) or 1.0
         w = {"shape": shape, "n": n, "lambda": lam, "series_head": y[:5], "scale": sc}
         # ---------------- hp_filter
@@ -126,6 +133,23 @@ def run_case(desc, ctx):
             continue
         c["hp_cases"] = c.get("hp_cases", 0) + 1
         out["evals"] += 1
+        if form in ("plain", "strided") and not np.array_equal(y, y_before):
+            bad("hp_filter changed the array it was given (the caller's series now differs from what was passed)", w)
+        if rep % 3 == 0:
+            # the same series again with another lambda (and back): every call is decided by its own lambda
+            lam_b = float(lam * rng.choice([0.01, 100.0]))
+            try:
+                with quiet():
+                    _cb, tb = ts.hp_filter(y, lam_b)
+                    _ca, ta = ts.hp_filter(y, lam)
+                c["same_series_other_lambda"] = c.get("same_series_other_lambda", 0) + 1
+                rb = np.max(np.abs(np.asarray(tb) + lam_b * second_diff_apply(np.asarray(tb, dtype=float)) - y))
+                if not rb <= 1e-11 * (1 + 16 * lam_b) * sc:
+                    bad(f"second call on the same series with lambda {lam_b!r} (after lambda {lam!r}): optimality residual {rb!r}", dict(w, second_lambda=lam_b))
+                if not np.max(np.abs(np.asarray(ta) - trend)) <= 1e-9 * sc:
+                    bad(f"third call, again with lambda {lam!r}, returns another trend than the first call", dict(w, second_lambda=lam_b))
+            except Exception as e:  # noqa: BLE001
+                bad(f"repeated hp_filter raised {type(e).__name__}: {e}", w)
         if shape == "constant":
             c["constant_series"] = c.get("constant_series", 0) + 1
         if cycle.shape != y.shape or trend.shape != y.shape:
@@ -150,6 +174,14 @@ def run_case(desc, ctx):
             if cyc1600.shape != y.shape or not np.max(np.abs(cyc1600 - refc)) <= 1e-8 * sc:
                 bad("hp_cycle_lamb1600_filter != series - HP trend at lambda 1600", w)
             yp = make_series(shape, n, rng, positive=True)
+            u = rng.random()
+            if u < 0.08:
+                yp = np.ones(n)                      # log == 0 everywhere
+                c["log_filter_on_ones"] = c.get("log_filter_on_ones", 0) + 1
+            elif u < 0.16:
+                # neighbouring values whose ratio leaves the float range although both logs are ordinary numbers
+                yp = 10.0 ** rng.choice([-200.0, 200.0, -150.0, 150.0, 0.0], size=n)
+                c["log_filter_on_wild_ratios"] = c.get("log_filter_on_wild_ratios", 0) + 1
             wp = dict(w, positive_series_head=yp[:5])
             ly = np.log(yp)
             lsc = float(np.max(np.abs(ly))) or 1.0
@@ -174,6 +206,16 @@ def run_case(desc, ctx):
         # ---------------- moment summary
         nm = max(n, 8)
         ym = make_series(shape, nm, rng)
+        u = rng.random()
+        if u < 0.12:
+            ym = ym / (float(np.max(np.abs(ym))) or 1.0) * 10.0 ** rng.uniform(155, 307)   # squares and sums leave the float range; the series itself is finite
+            c["moment_series_above_1e154"] = c.get("moment_series_above_1e154", 0) + 1
+        elif u < 0.24:
+            ym = np.round(ym / (float(np.max(np.abs(ym))) or 1.0) * 50).astype(np.int64)
+            c["moment_series_integer_typed"] = c.get("moment_series_integer_typed", 0) + 1
+        elif u < 0.30:
+            ym = ym / (float(np.max(np.abs(ym))) or 1.0) * 10.0 ** rng.uniform(-307, -160)
+            c["moment_series_below_1e-160"] = c.get("moment_series_below_1e-160", 0) + 1
         try:
             with quiet():
                 m = np.asarray(ts.get_mom_ts_1d(ym.copy()))
